@@ -223,4 +223,20 @@ PROPS["C15"] = {
     "technique": "Lean 4 proof over a syscall-level transition system + strace-based correspondence and crash-image enumeration",
 }
 
+PROPS["C16"] = {
+    "lean_module": "RaftVerif.Props.C16",
+    "theorems": [
+        T("WR.decAEReq_enc", "decode (encode m ++ rest) = (m, rest) for every well-formed AppendEntriesRequest with any number of entries (msgpack subset of go-msgpack as net_transport.go configures it)"),
+        T("WR.decAEResp_enc", "the same for AppendEntriesResponse"),
+        T("WR.decStream_enc", "a back-to-back stream of pipelined responses decodes to exactly those responses, in order"),
+    ],
+    "engines": [
+        {"engine": "wire", "bin": "h5", "quick": ["-n", "300"], "thorough": ["-n", "6000"], "timeout": 6000},
+    ],
+    "assumptions": ["the msgpack model is a model of a dependency (go-msgpack); its agreement with the real codec is checked byte for byte on every generated AppendEntries exchange that passes through two real NetworkTransports",
+                    "TCP itself and wall-clock deadlines are outside the model; connection faults appear as a cut after k bytes",
+                    "tie = H5: handler sees exactly what was sent, caller gets exactly what the handler produced (all five RPC types, InstallSnapshot bodies up to 100000 bytes), pipelines in order with own responses, a failed exchange yields an error and the next exchange its own response"],
+    "level_note": "partial: round-trip theorems cover AppendEntries request/response and response streams; the other message types and the pool discipline are covered by H5 observations only.",
+}
+
 HOOK_COMMITS = ["dfecdf5"]
